@@ -35,6 +35,19 @@ DECLINED = {
 }
 
 MORE = {'C01': ['hosts-style / plain-domain rule lines with capitals never matching (rule library index)'], 'C03': ['ClientID lost when the TLS server name differs from the configured one in letter case only'], 'C05': ['DHCP set_config / reset racing with DNS requests (DHCP reconfiguration is outside the statement)'], 'C07': ['records longer than 16 KiB breaking cursor paging (listed as an open finding)'], 'C08': ['||domain^ on the ignore list missing labels with unusual octets (rule library)', 'statistics keeping full addresses recorded before anonymisation was switched on'], 'C10': ['set_config wiping the lease table (DHCP reconfiguration is outside the quantifier)'], 'C12': ['block_auth_min above 153722867 overflowing to a negative block'], 'C13': ['plain scalars of string settings re-typed by the upgrade (listed as an open finding)', 'step 25->26 forgetting dns.cache_time'], 'C17': ['a malformed pattern accepted at start panicking later without reading anything']}
+MORE3 = {
+    "C01": ["a persistent client stored as fe80::1 not found for fe80::1%eth0 (attribution, both readings admitted)"],
+    "C03": ["*.example.org being an unanchored pattern of the rule library"],
+    "C04": ["an IPv6 catch-all network beating the exact IPv4 identifier for an IPv4-mapped source address",
+            "a client's blocked_services without schedule in a hand-edited file"],
+    "C05": ["readers holding the server lock for a whole upstream exchange (no latency bound)",
+            "dns_config / TLS restarts racing with unlocked reads of the server configuration"],
+    "C07": ["a search overlapping the automatic flush missing the batch being written",
+            "older_than between two stored records returning nothing once they are on disk"],
+    "C15": ["configuration files with one list identifier used twice (hand-numbered or written by an older version)"],
+}
+for _k, _v in MORE3.items():
+    MORE.setdefault(_k, []).extend(_v)
 for _k, _v in MORE.items():
     DECLINED.setdefault(_k, []).extend(_v)
 
